@@ -9,7 +9,9 @@ cd /repo || exit 2
 if ! git diff --quiet; then echo "/repo has uncommitted changes"; exit 2; fi
 git apply --check "$dir/patch.diff" || { echo "patch does not apply to current /repo"; exit 2; }
 git apply "$dir/patch.diff"
-trap 'git -C /repo checkout -- . ; find /verif/replays -name "*.json" -newer "$dir/patch.diff" -mmin -30 -delete 2>/dev/null' EXIT
+# the evidence written while the patch is applied describes a changed tree: keep the files of the unchanged tree
+ev=$(mktemp -d /tmp/seed_ev.XXXXXX); cp /verif/evidence/*.json "$ev"/ 2>/dev/null
+trap 'git -C /repo checkout -- . ; cp "$ev"/*.json /verif/evidence/ 2>/dev/null; rm -rf "$ev"; find /verif/replays -name "*.json" -newer "$dir/patch.diff" -mmin -30 -delete 2>/dev/null' EXIT
 cd /verif
 for prop in "$@"; do
   out="/tmp/seed_$(basename "$dir")_$prop.out"
